@@ -143,6 +143,46 @@ func envLocal(mode string) int {
 		}
 		fmt.Println("ENVLOCAL ok")
 		return 0
+	case "env-first-helper":
+		// the first calls into the library are the quoting helpers, on words
+		// that are keywords: their answers are the same before and after
+		// anything has been scanned or parsed
+		words := []string{"key", "select", "FROM", "Limit", "true", "and", "measurements", "cpu", "my_field"}
+		var before []string
+		for _, w := range words {
+			before = append(before, fmt.Sprint(influxql.IdentNeedsQuotes(w), influxql.QuoteIdent(w), influxql.QuoteIdent("db", "", w)))
+		}
+		built := (&influxql.SelectStatement{Fields: influxql.Fields{{Expr: &influxql.VarRef{Val: "limit"}}}, Sources: influxql.Sources{&influxql.Measurement{Name: "user"}}, IsRawQuery: true}).String()
+		if _, err := influxql.ParseStatement(built); err != nil {
+			fmt.Printf("MISMATCH a hand-built statement printed before anything was parsed, %q, does not parse: %v\n", built, err)
+			return 1
+		}
+		_, _ = influxql.ParseQuery("SELECT a FROM b WHERE c = 1")
+		for i, w := range words {
+			after := fmt.Sprint(influxql.IdentNeedsQuotes(w), influxql.QuoteIdent(w), influxql.QuoteIdent("db", "", w))
+			if after != before[i] {
+				fmt.Printf("MISMATCH %q: as the first call in the process the helpers answer %s, after a parse %s\n", w, before[i], after)
+				return 1
+			}
+		}
+		fmt.Println("ENVLOCAL ok")
+		return 0
+	case "env-first-tz":
+		// the first time zone the process ever asks for does not exist; the
+		// ones asked for afterwards do
+		_, err0 := influxql.ParseStatement("SELECT v FROM m TZ('Europe/Berlim')")
+		if _, err := time.LoadLocation("Europe/Berlin"); err != nil {
+			fmt.Println("ENVLOCAL skipped: no zone database")
+			return 0
+		}
+		for _, z := range []string{"Europe/Berlin", "America/Los_Angeles", "Asia/Kolkata", "UTC"} {
+			if _, err := influxql.ParseStatement("SELECT v FROM m TZ('" + z + "')"); err != nil {
+				fmt.Printf("MISMATCH after a statement with an unknown zone was refused (%v), TZ('%s') is refused too: %v\n", err0, z, err)
+				return 1
+			}
+		}
+		fmt.Println("ENVLOCAL ok")
+		return 0
 	}
 	return 3
 }
